@@ -51,7 +51,7 @@ def parts(prop: str, kt: bool = True):
     out = []
     if kt:
         out.append(_compose.Part("pm_kt", lambda ctx: pm_trace.run_kt(ctx, 300, 6000), _replay, theorems=ths, modules=LEAN_MODULES))
-    known = pm_trace.KNOWN if prop == "C11" else None
+    known = pm_trace.KNOWN if prop == "C11" else (getattr(pm_trace, "KNOWN_C12", None) if prop == "C12" else None)
     out.append(_compose.Part("pm_ko", lambda ctx: pm_trace.run_ko(_Only(ctx, prop), 0.6), _replay, theorems=ths, modules=LEAN_MODULES, known=known))
     try:
         from . import pmgen_parts
